@@ -44,6 +44,14 @@ def build_template(ctx):
     # a plotfile of the same name in another run directory
     os.makedirs(os.path.join(root, "plt_runs2"))
     shutil.copytree(os.path.join(root, "plt00020"), os.path.join(root, "plt_runs2", "plt00100"))
+    # a pair on a mesh of two boxes kept in ONE binary file (what a copy interrupted between the two FABs leaves is a file of
+    # one FAB: a single offset, which numpy broadcasts)
+    two = {"ndims": 3, "fields": ["density", "temp", "volFrac"], "time": 0.5, "geo_low": [0.0, 0.0, 0.0], "dx0": [0.25, 0.25, 0.25],
+           "grid0": [4, 2, 2], "block": 2, "levels": [[[[0, 0, 0], [1, 1, 1]], [[2, 0, 0], [3, 1, 1]]]], "layout": [[[0, 0], [0, 1]]],
+           "data": {"mode": "smallint", "seed": 5}, "header_style": "amrex", "step": 1}
+    plotgen.materialize(two, os.path.join(root, "plt2fab10"))
+    two2 = dict(two); two2["fields"] = ["pressure", "mach"]; two2["data"] = {"mode": "smallint", "seed": 6}
+    plotgen.materialize(two2, os.path.join(root, "plt2fab20"))
     with open(os.path.join(root, "rec.py"), "w") as f:
         f.write(tools.USER_RECIPE)
     # the plotfile of the same step beside the checkpoint (holds the species names a conversion can take from it)
@@ -57,7 +65,7 @@ def build_template(ctx):
 
 
 INPUTS = ["plt00010", "plt00020", "plt00040", "plt2d00030", "chk00005", "restart7", "chk_runs/sim00100", "chk00007", "plt00007", "plt00050_ck",
-          "plt_runs/plt00100", "plt_runs/plt00200", "plt_runs2/plt00100"]
+          "plt_runs/plt00100", "plt_runs/plt00200", "plt_runs2/plt00100", "plt2fab10", "plt2fab20"]
 
 
 def form_path(root, name, form):
@@ -248,6 +256,10 @@ FAILING = [
     ("combine-cut-between-fabs-second", lambda r: _cut_at_fab(r, "plt00020", "Cell_D"), lambda r: tools.combine("plt00010", "plt00020", "out_cmb")),
     ("colander-cut-between-fabs", lambda r: _cut_at_fab(r, "plt00010", "Cell_D"), lambda r: tools.colander("plt00010", "out_col", ["temp", "density"])),
     ("chef-cut-between-fabs", lambda r: _cut_at_fab(r, "plt00010", "Cell_D"), lambda r: tools.chef("plt00010", "rec.py", "out_ck")),
+    ("combine-two-fab-file-cut-first", lambda r: _cut_at_fab(r, "plt2fab10", "Cell_D"), lambda r: tools.combine("plt2fab10", "plt2fab20", "out_cmb")),
+    ("combine-two-fab-file-cut-second", lambda r: _cut_at_fab(r, "plt2fab20", "Cell_D"), lambda r: tools.combine("plt2fab10", "plt2fab20", "out_cmb")),
+    ("colander-two-fab-file-cut", lambda r: _cut_at_fab(r, "plt2fab10", "Cell_D"), lambda r: tools.colander("plt2fab10", "out_col", ["temp", "density"])),
+    ("chef-two-fab-file-cut", lambda r: _cut_at_fab(r, "plt2fab10", "Cell_D"), lambda r: tools.chef("plt2fab10", "rec.py", "out_ck")),
     ("colander-file-size-limit", _probe_colander_sizes, _colander_file_size_limit),
     ("combine-bybox-truncated", lambda r: _truncate(r, "plt00040", "Cell_D", 16), lambda r: tools.combine("plt00010", "plt00040", "out_cmb4")),
     ("chef-truncated", lambda r: _truncate(r, "plt00010", "Cell_D", 16), lambda r: tools.chef("plt00010", "rec.py", "out_ck")),
@@ -425,7 +437,11 @@ def run(ctx, rep, model=True):
         rep.case(case, nontrivial=True); rep.count("scenario:failing-input")
         root = fresh(ctx, template)
         if prep is not None:
-            prep(root)
+            try:
+                prep(root)
+            except RuntimeError:
+                # the generated inputs do not allow this damage (e.g. no binary file holding two FABs)
+                rep.count("failing-input-not-applicable"); shutil.rmtree(root, ignore_errors=True); continue
         before2 = {n: audit.tree_hash(os.path.join(root, n)) for n in INPUTS}
         outcome, ev = execute(root, lambda: fn(root))
         if outcome == "ok":
@@ -442,7 +458,10 @@ def replay(ctx, rep, obj, model=True):
     if c["scenario"] == "failing-input":
         prep, fn = {n: (p, f) for n, p, f in FAILING}[c["tool"]]
         if prep is not None:
-            prep(root)
+            try:
+                prep(root)
+            except RuntimeError:
+                return
         outcome, ev = execute(root, lambda: fn(root))
         if outcome == "ok":
             rep.fail(f"{c['tool']}: the tool returned normally", c)
